@@ -244,6 +244,7 @@ class Models:
         R(r"^core::time::Duration::new$", lambda ci: ("app", "duration_ms", (mk_int(ci.args[0][1] * 1000 + ci.args[1][1] // 1000000, "u64"),)) if ci.args[0][0] == "int" and ci.args[1][0] == "int" else ("app", "duration_new", tuple(ci.args)), "Duration::new(secs, nanos)")
         R(r"^core::time::Duration::is_zero$", m_dur_is_zero, "Duration::is_zero")
         R(r"^core::option::Option::<core::result::Result<T, E>>::transpose$", m_transpose, "Option<Result<T,E>>::transpose: None => Ok(None), Some(Ok(x)) => Ok(Some(x)), Some(Err(e)) => Err(e)")
+        R(r"^core::result::Result::<T, E>::and$", m_result_and, "Result::and(res): Ok(_) => res, Err(e) => Err(e); res is an argument, so it was evaluated before the call")
         R(r"^core::result::Result::<T, E>::and_then$", m_and_then, "Result::and_then: Ok(v) => f(v), Err(e) => Err(e)")
         R(r"^core::option::Option::<T>::unwrap_or_else$", m_unwrap_or_else, "Option::unwrap_or_else: Some(x) => x, None => f()")
         R(r"^core::slice::<impl \[T\]>::split_first$", m_split_first, "slice::split_first: None for an empty slice, else Some((&s[0], &s[1..]))")
@@ -351,6 +352,16 @@ def m_try_branch(ci):
         ([(d, 0)], ev.mk_adt(CFLOW, "Continue", (okv,))),
         ([(d, 1)], ev.mk_adt(CFLOW, "Break", (err(ev, erv),))),
     ])
+
+
+def m_result_and(ci):
+    ev = ci.ev
+    x, y = ci.args
+    if x[0] == "adt":
+        return y if x[3] == "Ok" else err(ev, x[4][0])
+    d = ("discr", x)
+    erv = ("proj", ("proj", x, ("downcast", 1, "Err")), ("field", 0, "?"))
+    return ("fork", [([(d, 0)], y), ([(d, 1)], err(ev, erv))])
 
 
 def m_from_residual(ci):
